@@ -36,15 +36,27 @@ type memCase struct {
 	Dst      string // aescbcaead only: nil, sep (separate buffer), inplace (argument[:0])
 	DstLen   int
 	NilEmpty bool // pass nil instead of an empty slice without spare capacity
-	Seed     uint64
+	// Layout of the arguments in the caller's memory. Pack == nil: every argument in a canary region of its own.
+	// Otherwise Pack lists (in memory order) the []byte arguments - numbered in declaration order, key material behind
+	// a jwk.Key and an explicit separate dst not counted - that are sub-slices of ONE buffer; Gap[i] is the distance
+	// between the i-th and the next of them (0: adjacent, negative: overlapping); Cap says where the capacity of each
+	// sub-slice ends: "len", "gap" (at the next argument) or "end" (two-index slicing: at the end of the buffer).
+	Pack []int
+	Gap  []int
+	Cap  string
+	Seed uint64
 }
 
 func (c memCase) String() string {
-	return fmt.Sprintf("mem{op=%s alg=%s mode=%s len=%d aad=%d spare=%v dst=%s/%d nilEmpty=%v seed=%#x}", c.Op, c.Alg, c.Mode, c.Len, c.AadLen, c.Spare, c.Dst, c.DstLen, c.NilEmpty, c.Seed)
+	lay := ""
+	if len(c.Pack) > 0 {
+		lay = fmt.Sprintf(" pack=%v gap=%v cap=%s", c.Pack, c.Gap, c.Cap)
+	}
+	return fmt.Sprintf("mem{op=%s alg=%s mode=%s len=%d aad=%d spare=%v dst=%s/%d nilEmpty=%v%s seed=%#x}", c.Op, c.Alg, c.Mode, c.Len, c.AadLen, c.Spare, c.Dst, c.DstLen, c.NilEmpty, lay, c.Seed)
 }
 
 func (c memCase) fp() uint64 {
-	return vk.FP("mem", c.Op, c.Alg, c.Mode, c.Len, c.AadLen, fmt.Sprint(c.Spare), c.Dst, c.DstLen, c.NilEmpty)
+	return vk.FP("mem", c.Op, c.Alg, c.Mode, c.Len, c.AadLen, fmt.Sprint(c.Spare), c.Dst, c.DstLen, c.NilEmpty, fmt.Sprint(c.Pack), fmt.Sprint(c.Gap), c.Cap)
 }
 
 // call is the bookkeeping of one case.
@@ -69,14 +81,91 @@ func (k *call) spare() int {
 	return s
 }
 
-// arg cuts the next argument.
-func (k *call) arg(name string, content []byte) []byte {
-	sp := k.spare()
-	if len(content) == 0 && sp == 0 && k.c.NilEmpty {
-		return nil
-	}
-	return k.a.cut(name, content, sp)
+type argKind int
+
+const (
+	argPlain   argKind = iota // read-only []byte argument
+	argKey                    // raw bytes behind a symmetric jwk.Key (jwk keeps the slice): a region of its own, never nil
+	argDst                    // explicit separate AEAD dst: a region of its own, writable up to its capacity
+	argInPlace                // argument the caller also passes as dst (x[:0]): writable up to its capacity
+)
+
+type argSpec struct {
+	name    string
+	content []byte
+	kind    argKind
 }
+
+func plain(name string, content []byte) argSpec { return argSpec{name: name, content: content} }
+
+// layout places all the arguments of the call in the caller's memory (in declaration order, which is the order
+// the spare capacities of the case are assigned in) and returns the slices to hand to the function under test.
+func (k *call) layout(specs ...argSpec) [][]byte {
+	out := make([][]byte, len(specs))
+	spares := make([]int, len(specs))
+	var packable []int
+	for i, s := range specs {
+		spares[i] = k.spare()
+		if s.kind == argPlain || s.kind == argInPlace {
+			packable = append(packable, i)
+		}
+	}
+	// the arguments that share one buffer, in memory order
+	var order []int
+	seen := map[int]bool{}
+	for _, p := range k.c.Pack {
+		if p >= 0 && p < len(packable) && !seen[p] {
+			seen[p] = true
+			order = append(order, packable[p])
+		}
+	}
+	if len(order) < 2 {
+		order = nil
+	}
+	inPack := map[int]bool{}
+	for _, i := range order {
+		inPack[i] = true
+	}
+	for i, s := range specs {
+		if inPack[i] {
+			continue
+		}
+		switch s.kind {
+		case argPlain:
+			if len(s.content) == 0 && spares[i] == 0 && k.c.NilEmpty {
+				continue // nil
+			}
+			out[i] = k.a.cut(s.name, s.content, spares[i])
+		case argKey:
+			out[i] = k.a.cut(s.name, s.content, spares[i])
+		case argDst:
+			out[i] = k.a.dst(s.name, s.content, spares[i])
+		case argInPlace:
+			out[i] = k.a.cut(s.name, s.content, spares[i])
+			k.a.reuseAsDst(s.name)
+		}
+	}
+	if order != nil {
+		items := make([]packItem, len(order))
+		for j, i := range order {
+			g := spares[i] // behind the last argument: its spare capacity
+			if j < len(order)-1 {
+				g = 0
+				if len(k.c.Gap) > 0 {
+					g = k.c.Gap[j%len(k.c.Gap)]
+				}
+			}
+			items[j] = packItem{name: specs[i].name, content: specs[i].content, gap: g, writable: specs[i].kind == argInPlace}
+		}
+		for j, sl := range k.a.pack(items, k.c.Cap) {
+			out[order[j]] = sl
+		}
+	}
+	return out
+}
+
+// arg cuts the only []byte argument of a call.
+func (k *call) arg(name string, content []byte) []byte { return k.layout(plain(name, content))[0] }
 
 // protect runs f and turns a panic into data: C17 is about memory, not about panics (those belong to C03/C07).
 func (k *call) protect(f func()) {
@@ -159,17 +248,21 @@ func pubOf(priv any) any {
 	panic("harness: key type")
 }
 
-// octJWK builds a symmetric jwk.Key over key bytes that live in the arena (jwk keeps the slice it is given).
-func (k *call) octJWK(keyBytes []byte) (jwk.Key, []byte) {
+// keySpec declares the bytes of a symmetric key, which live in the arena too (jwk keeps the slice it is given).
+func keySpec(keyBytes []byte) argSpec {
 	if len(keyBytes) == 0 {
 		keyBytes = []byte{0x42} // jwk cannot hold an empty octet sequence
 	}
-	mem := k.a.cut("key", keyBytes, k.spare())
+	return argSpec{name: "key", content: keyBytes, kind: argKey}
+}
+
+// octJWK builds a symmetric jwk.Key over the key bytes cut by layout.
+func (k *call) octJWK(mem []byte) (jwk.Key, []byte) {
 	key, err := jwk.FromRaw(mem)
 	if err != nil {
 		k.harness = "jwk.FromRaw: " + err.Error()
 	}
-	return key, append([]byte{}, keyBytes...)
+	return key, append([]byte{}, mem...)
 }
 
 func checkOct(key jwk.Key, want []byte) string {
@@ -247,16 +340,18 @@ func (k *call) symEnc(api string) {
 			ptLen++
 		}
 	}
-	pt := k.arg("plaintext", k.rnd("pt", ptLen))
 	var key jwk.Key
-	var keyWant []byte
+	var keyWant, pt, nonce, aad []byte
+	ptS, nonceS, aadS := plain("plaintext", k.rnd("pt", ptLen)), plain("nonce", k.rnd("nonce", nonceLen)), plain("associatedData", k.rnd("aad", c.AadLen))
 	if c.Mode == "wrongkeykind" {
 		key = fixedJWK("rsa2048")
+		m := k.layout(ptS, nonceS, aadS)
+		pt, nonce, aad = m[0], m[1], m[2]
 	} else {
-		key, keyWant = k.octJWK(k.rnd("key", keyLen))
+		m := k.layout(ptS, keySpec(k.rnd("key", keyLen)), nonceS, aadS)
+		pt, nonce, aad = m[0], m[2], m[3]
+		key, keyWant = k.octJWK(m[1])
 	}
-	nonce := k.arg("nonce", k.rnd("nonce", nonceLen))
-	aad := k.arg("associatedData", k.rnd("aad", c.AadLen))
 	if k.harness != "" {
 		return
 	}
@@ -333,17 +428,18 @@ func (k *call) symDec(api string) {
 		k.harness = "mode " + c.Mode
 		return
 	}
-	ct := k.arg("ciphertext", ctB)
 	var key jwk.Key
-	var keyWant []byte
+	var keyWant, ct, nonce, tag, aad []byte
+	ctS, nonceS, tagS, aadS := plain("ciphertext", ctB), plain("nonce", nonceB), plain("tag", tagB), plain("associatedData", aadB)
 	if c.Mode == "wrongkeykind" {
 		key = fixedJWK("p256")
+		m := k.layout(ctS, nonceS, tagS, aadS)
+		ct, nonce, tag, aad = m[0], m[1], m[2], m[3]
 	} else {
-		key, keyWant = k.octJWK(keyB)
+		m := k.layout(ctS, keySpec(keyB), nonceS, tagS, aadS)
+		ct, nonce, tag, aad = m[0], m[2], m[3], m[4]
+		key, keyWant = k.octJWK(m[1])
 	}
-	nonce := k.arg("nonce", nonceB)
-	tag := k.arg("tag", tagB)
-	aad := k.arg("associatedData", aadB)
 	if k.harness != "" {
 		return
 	}
@@ -384,8 +480,8 @@ func (k *call) rsaEnc(api string) {
 	case "wrongkeykind":
 		key = fixedJWK("ed25519.pub")
 	}
-	pt := k.arg("plaintext", k.rnd("pt", n))
-	label := k.arg("associatedData", k.rnd("label", c.AadLen))
+	m := k.layout(plain("plaintext", k.rnd("pt", n)), plain("associatedData", k.rnd("label", c.AadLen)))
+	pt, label := m[0], m[1]
 	var ct, tag []byte
 	k.protect(func() {
 		if api == "generic" {
@@ -424,8 +520,8 @@ func (k *call) rsaDec(api string) {
 	case "wrongkeykind":
 		key, reached = fixedJWK(kn+".pub"), false
 	}
-	ct := k.arg("ciphertext", ctB)
-	label := k.arg("associatedData", labelB)
+	m := k.layout(plain("ciphertext", ctB), plain("associatedData", labelB))
+	ct, label := m[0], m[1]
 	var pt []byte
 	k.protect(func() {
 		if api == "generic" {
@@ -515,8 +611,8 @@ func (k *call) verify() {
 	case "wrongkeykind":
 		key, reached = fixedJWK(map[string]string{"rs": "p256.pub", "ps": "ed25519.pub", "es": "rsa2048.pub", "ed": "p384.pub"}[s.Family]), false
 	}
-	digest := k.arg("digest", digestB)
-	sig := k.arg("signature", sigB)
+	m := k.layout(plain("digest", digestB), plain("signature", sigB))
+	digest, sig := m[0], m[1]
 	var valid bool
 	k.protect(func() { valid, k.err = kit.VerifyPublicKey(digest, sig, c.Alg, key) })
 	k.reached = reached && k.pnc == nil && (c.Mode != "ok" || valid)
@@ -633,38 +729,37 @@ var aeadCtor = map[string]func([]byte) (cipher.AEAD, error){
 	"A256CBC-HS512": aescbcaead.NewAESCBC256SHA512, "AEAD_AES_256_CBC_HMAC_SHA_384": aescbcaead.NewAESCBC256SHA384,
 }
 
-func (k *call) newAEAD() (cipher.AEAD, refcrypto.CBCHMAC, []byte) {
-	p := refcrypto.CBCHMACByName(k.c.Alg)
-	keyB := k.rnd("key", p.KeyLen())
-	key := k.arg("key", keyB) // the constructor keeps sub-slices of the caller's key
-	a, err := aeadCtor[k.c.Alg](key)
+// aeadArgs places key, (dst,) message, nonce and additional data, builds the AEAD over the caller's key (the constructor
+// keeps sub-slices of it) and returns dst, message, nonce, additional data.
+func (k *call) aeadArgs(keyB []byte, msgName string, msgB, nonceB, aadB []byte) (a cipher.AEAD, dst, msg, nonce, aad []byte) {
+	c := k.c
+	var m [][]byte
+	switch c.Dst {
+	case "inplace":
+		m = k.layout(plain("key", keyB), argSpec{name: msgName, content: msgB, kind: argInPlace}, plain("nonce", nonceB), plain("additionalData", aadB))
+		msg, nonce, aad = m[1], m[2], m[3]
+		dst = msg[:0]
+	case "sep":
+		m = k.layout(plain("key", keyB), argSpec{name: "dst", content: k.rnd("dst", c.DstLen), kind: argDst}, plain(msgName, msgB), plain("nonce", nonceB), plain("additionalData", aadB))
+		dst, msg, nonce, aad = m[1], m[2], m[3], m[4]
+	default:
+		m = k.layout(plain("key", keyB), plain(msgName, msgB), plain("nonce", nonceB), plain("additionalData", aadB))
+		msg, nonce, aad = m[1], m[2], m[3]
+	}
+	a, err := aeadCtor[c.Alg](m[0])
 	if err != nil {
 		k.harness = "constructor: " + err.Error()
 	}
-	return a, p, keyB
+	return a, dst, msg, nonce, aad
 }
 
 func (k *call) seal() {
 	c := k.c
-	a, _, _ := k.newAEAD()
+	p := refcrypto.CBCHMACByName(c.Alg)
+	a, dst, pt, nonce, aad := k.aeadArgs(k.rnd("key", p.KeyLen()), "plaintext", k.rnd("pt", c.Len), k.rnd("nonce", 16), k.rnd("aad", c.AadLen))
 	if k.harness != "" {
 		return
 	}
-	ptB := k.rnd("pt", c.Len)
-	var dst, pt []byte
-	switch c.Dst {
-	case "inplace":
-		pt = k.a.cut("plaintext", ptB, k.spare())
-		k.a.reuseAsDst("plaintext")
-		dst = pt[:0]
-	case "sep":
-		dst = k.a.dst("dst", k.rnd("dst", c.DstLen), k.spare())
-		pt = k.arg("plaintext", ptB)
-	default:
-		pt = k.arg("plaintext", ptB)
-	}
-	nonce := k.arg("nonce", k.rnd("nonce", 16))
-	aad := k.arg("additionalData", k.rnd("aad", c.AadLen))
 	var out []byte
 	k.protect(func() { out = a.Seal(dst, nonce, pt, aad) })
 	k.results = [][]byte{out}
@@ -673,10 +768,8 @@ func (k *call) seal() {
 
 func (k *call) open() {
 	c := k.c
-	a, p, keyB := k.newAEAD()
-	if k.harness != "" {
-		return
-	}
+	p := refcrypto.CBCHMACByName(c.Alg)
+	keyB := k.rnd("key", p.KeyLen())
 	nonceB, aadB, ptB := k.rnd("nonce", 16), k.rnd("aad", c.AadLen), k.rnd("pt", c.Len)
 	e, tg, err := p.Seal(keyB, nonceB, ptB, aadB)
 	if err != nil {
@@ -701,20 +794,10 @@ func (k *call) open() {
 		e, tg, reached = nil, tg[:int(c.Seed%uint64(len(tg)))], false
 	}
 	ctB := append(append([]byte{}, e...), tg...)
-	var dst, ct []byte
-	switch c.Dst {
-	case "inplace":
-		ct = k.a.cut("ciphertext", ctB, k.spare())
-		k.a.reuseAsDst("ciphertext")
-		dst = ct[:0]
-	case "sep":
-		dst = k.a.dst("dst", k.rnd("dst", c.DstLen), k.spare())
-		ct = k.arg("ciphertext", ctB)
-	default:
-		ct = k.arg("ciphertext", ctB)
+	a, dst, ct, nonce, aad := k.aeadArgs(keyB, "ciphertext", ctB, nonceB, aadB)
+	if k.harness != "" {
+		return
 	}
-	nonce := k.arg("nonce", nonceB)
-	aad := k.arg("additionalData", aadB)
 	var out []byte
 	k.protect(func() { out, k.err = a.Open(dst, nonce, ct, aad) })
 	k.results = [][]byte{out}
